@@ -234,6 +234,8 @@ func genScenario(t *rapid.T, p genProfile) Scenario {
 	for i := 0; i < sc.NWatch; i++ {
 		live = append(live, i)
 	}
+	lastLayer := map[int]*SimLayer{}
+	var finished []int
 	pickLive := func(label string) int {
 		if len(live) == sc.NWatch {
 			return rapid.IntRange(0, sc.NWatch-1).Draw(t, label) // same draws as before wDone existed
@@ -243,16 +245,30 @@ func genScenario(t *rapid.T, p genProfile) Scenario {
 	for i := 0; i < nops; i++ {
 		switch pickWeighted(t, "op", weights) {
 		case 8:
+			if len(finished) > 0 && (len(live) < 2 || rapid.IntRange(0, 2).Draw(t, "done_again") == 0) {
+				// a watcher that already finished says Done once more (error path plus deferred clean-up): no effect
+				sc.Ops = append(sc.Ops, Op{K: "done", Src: finished[rapid.IntRange(0, len(finished)-1).Draw(t, "done_again_src")]})
+				continue
+			}
 			if len(live) < 2 {
 				sc.Ops = append(sc.Ops, Op{K: "view"})
 				continue
 			}
 			k := rapid.IntRange(0, len(live)-1).Draw(t, "done_mid")
 			sc.Ops = append(sc.Ops, Op{K: "done", Src: live[k]})
+			finished = append(finished, live[k])
 			live = append(live[:k:k], live[k+1:]...)
 		case 0:
 			op := Op{K: "report", Src: pickLive("src")}
-			op.L = g.genLayer(t, op.Src, p)
+			if prev := lastLayer[op.Src]; prev != nil && rapid.IntRange(0, 6).Draw(t, "repeat_last") == 0 {
+				// the source re-reports exactly what it reported last (valid or not):
+				// it is stacked, verified and announced like any other report
+				cp := *prev
+				op.L = &cp
+			} else {
+				op.L = g.genLayer(t, op.Src, p)
+			}
+			lastLayer[op.Src] = op.L
 			op.Block = rapid.IntRange(0, 99).Draw(t, "block") < p.blockPct
 			if rapid.IntRange(0, 99).Draw(t, "pre") < p.prePct {
 				op.Ctx = "pre"
